@@ -2,6 +2,7 @@ import LibconfigModel.Step
 import LibconfigModel.WF
 import LibconfigModel.Locale
 import LibconfigModel.Alloc
+import LibconfigModel.Cpp   -- C17
 /-
   Line-protocol driver: one operation per line on stdin, one canonical line on
   stdout.  The C harness (harness/drv_api.c) executes the same lines on the real
@@ -165,9 +166,146 @@ def showOut (op : Op) (o : Out) : String :=
   | _, .bytes b => hex b
   | _, .readResult _ => "?"
 
+-- BEGIN C17
+/-! The `cpp …` lines: the C++ API model of LibconfigModel/Cpp.lean.  The text printed here is
+the part of the harness line (harness/drv_cpp.cc) before ` | c `. -/
+
+def parseCKind : String → Option Cpp.CKind
+  | "bool" => some .bool | "int" => some .int | "uint" => some .uint | "long" => some .long
+  | "ulong" => some .ulong | "int64" => some .int64 | "uint64" => some .uint64 | "double" => some .double
+  | "float" => some .float | "cstr" => some .cstr | "string" => some .string | _ => none
+
+/-- kinds that have a `lookupValue` overload -/
+def parseLvKind (k : String) : Option Cpp.CKind :=
+  if k == "long" || k == "ulong" then none else parseCKind k
+
+def parseAVal (k v : String) : Option Cpp.AVal :=
+  match k with
+  | "bool" => do some (.bool ((← v.toInt?) != 0))
+  | "int" => do some (.int (← v.toInt?))
+  | "long" => do some (.long (← v.toInt?))
+  | "int64" => do some (.int64 (← v.toInt?))
+  | "double" => do some (.double (← bitsOfHex v))
+  | "float" => do some (.float (← bitsOfHex v))
+  | "cstr" => do some (.cstr (← unhexOpt v))
+  | "string" => do some (.string (← unhex v))
+  | _ => none
+
+def parseCppOp (w : List String) : Option Cpp.CppOp :=
+  let S (p : String) (op : Cpp.SOp) : Option Cpp.CppOp := do some (.setting (← parsePath p) op)
+  match w with
+  | ["init"] => some .init
+  | ["clear"] => some .clear
+  | ["read_string", s] => do some (.read (.string (← unhex s)))
+  | ["read_stream", s] => do some (.read (.stream (← unhex s)))
+  | ["read_file", p] => do some (.read (.file (← unhex p)))
+  | ["write_file", p] => do some (.writeFile (← unhex p))
+  | ["write"] => some .write
+  | ["clookup", path] => do some (.lookup (← unhex path))
+  | ["cexists", path] => do some (.exists_ (← unhex path))
+  | ["clookup_value", k, path] => do some (.lookupValue (← parseLvKind k) (← unhex path))
+  | ["get_root"] => some .getRoot
+  | ["set_options", n] => do some (.setOptions (← n.toNat?))
+  | ["get_options"] => some .getOptions
+  | ["set_option", o, f] => do some (.setOption (← o.toNat?) ((← f.toNat?) != 0))
+  | ["get_option", o] => do some (.getOption (← o.toNat?))
+  | ["set_auto_convert", f] => do some (.setAutoConvert ((← f.toNat?) != 0))
+  | ["get_auto_convert"] => some .getAutoConvert
+  | ["set_tab_width", n] => do some (.setTabWidth (← n.toNat?))
+  | ["get_tab_width"] => some .getTabWidth
+  | ["set_float_precision", n] => do some (.setFloatPrecision (← n.toNat?))
+  | ["get_float_precision"] => some .getFloatPrecision
+  | ["set_default_format", n] => do some (.setDefaultFormat (← n.toNat?))
+  | ["get_default_format"] => some .getDefaultFormat
+  | ["set_include_dir", d] => do some (.setIncludeDir (← unhexOpt d))
+  | ["get_include_dir"] => some .getIncludeDir
+  | ["wrappers"] => some .wrappers
+  | ["cast", k, p] => do S p (.cast (← parseCKind k))
+  | ["assign", k, p, v] => do S p (.assign (← parseAVal k v))
+  | ["lookup", p, path] => do S p (.lookup (← unhex path))
+  | ["member", p, name] => do S p (.member (← unhexOpt name))
+  | ["elem", p, i] => do S p (.elem (← i.toInt?))
+  | ["lookup_value", k, p, name] => do S p (.lookupValue (← parseLvKind k) (← unhexOpt name))
+  | ["exists", p, name] => do S p (.exists_ (← unhexOpt name))
+  | ["add", p, name, ty] => do S p (.add (← unhexOpt name) (← ty.toNat?))
+  | ["add_elem", p, ty] => do S p (.addElem (← ty.toNat?))
+  | ["remove", p, name] => do S p (.remove (← unhexOpt name))
+  | ["remove_idx", p, idx] => do S p (.removeIdx (← idx.toNat?))
+  | ["info", p] => S p .info
+  | ["get_path", p] => S p .getPath
+  | ["get_parent", p] => S p .getParent
+  | ["set_format", p, f] => do S p (.setFormat (← f.toNat?))
+  | ["iterate", p] => S p .iterate
+  | ["citerate", p] => S p .iterate
+  | _ => none
+
+def showExc : Cpp.Exc → String
+  | .settingNotFound p => "E:SettingNotFoundException:" ++ hex p
+  | .settingType p => "E:SettingTypeException:" ++ hex p
+  | .settingRange p => "E:SettingRangeException:" ++ hex p
+  | .settingName p => "E:SettingNameException:" ++ hex p
+  | .parse f l t => s!"E:ParseException:{hexOpt f}:{l}:{hexOpt t}"
+  | .fileIO => "E:FileIOException"
+  | .badAlloc => "E:bad_alloc"
+
+def showCppVal : Cpp.CppVal → String
+  | .unit => "ok"
+  | .bool b => b2s b
+  | .int v => toString v
+  | .dbl b => hex64 b
+  | .cstr s => hexOpt s
+  | .text s => hex s
+  | .setting p => showPath p
+  | .order l d => "iter " ++ (if l.isEmpty then "-" else ",".intercalate (l.map toString)) ++ s!" dist {d}"
+  | .info i =>
+    s!"{i.length} {hexOpt i.name} {i.index} {i.type} {i.format} {b2s i.isRoot} {b2s i.isGroup} {b2s i.isArray} " ++
+    s!"{b2s i.isList} {b2s i.isAggregate} {b2s i.isScalar} {b2s i.isNumber} {b2s i.isString} {i.line} {hexOpt i.file}"
+  | .unspec => "unspec"
+
+/-- operations whose line reports the wrappers deleted -/
+def cppShowsFreed : Cpp.CppOp → Bool
+  | .init | .clear | .read _ => true
+  | .setting _ (.add ..) | .setting _ (.addElem _) | .setting _ (.remove _) | .setting _ (.removeIdx _) => true
+  | _ => false
+
+def showCppOut (op : Cpp.CppOp) (o : Cpp.Out) : String :=
+  let freed := if cppShowsFreed op then s!" freed {o.freed.length}" else ""
+  match o.res with
+  | .badOp => "bad-op"
+  | .ok v => showCppVal v ++ freed
+  | .found none => "0" ++ freed
+  | .found (some v) => "1 " ++ showCppVal v ++ freed
+  | .exc e => showExc e ++ freed
+  | .undefined => "undefined" ++ freed
+
+def cppLine (st : State) (w : List String) : State × String :=
+  match w with
+  | ["overloads", _] => (st, "ok")      -- which of two equivalent overloads the harness calls
+  | [b, k, n] =>
+    if b == "badalloc" || b == "badalloc_long" then
+      -- C13, C++ part: the k-th of n allocation requests fails; the fatal-error handler throws std::bad_alloc
+      match k.toInt?, n.toNat? with
+      | some k, some n =>
+        if k < 0 then (st, "count")
+        else
+          match runAllocs (List.replicate n Act.alloc) (some k.toNat) 0 with
+          | .fatal _ => (st, "bad_alloc")
+          | .normal _ => (st, "normal-same")
+      | _, _ => (st, "bad-op")
+    else
+      match parseCppOp w with
+      | none => (st, "bad-op")
+      | some op => let (st', o) := Cpp.cppStep st op; (st', showCppOut op o)
+  | _ =>
+    match parseCppOp w with
+    | none => (st, "bad-op")
+    | some op => let (st', o) := Cpp.cppStep st op; (st', showCppOut op o)
+-- END C17
+
 def stepLine (st : State) (w : List String) : State × String :=
   let c := st.cfg
   match w with
+  | "cpp" :: rest => cppLine st rest   -- C17
   | ["init"] => ({ st with cfg := Config.init }, "ok")
   | ["reset_world"] => ({ st with world := {} }, "ok")
   | ["info", p] =>
